@@ -184,6 +184,10 @@ def run_check(pid, tier):
             if r.returncode != 0:
                 lean_broken = True
 
+    # ---- 1b. static side conditions of the property (syntactic checks on the working tree; a failing one is an undischarged obligation, never a verdict)
+    static = getattr(prop, 'static_obligations', lambda: [])()
+    static_broken = [s_ for s_ in static if not s_['ok']]
+
     drift = anchors_drifted(prop)
     boost = 3 if (drift and tier == 'quick') else 1
 
@@ -219,7 +223,7 @@ def run_check(pid, tier):
 
         # ---- 3. search when the correspondence (or a Lean obligation) broke without a property failure
         searched = 0
-        if (dis_all or lean_broken or gen_dis) and not viol_all:
+        if (dis_all or lean_broken or gen_dis or static_broken) and not viol_all:
             srng = core.Rng(seed + 1)
             sb = []
             for c in prop.cases('search', srng, 4):
@@ -267,12 +271,14 @@ def run_check(pid, tier):
             out_lines.append('VIOLATION property=%s replay=%s' % (pid, path))
             violations = len(new)
             reported.append(path)
-    if not reported and (dis_all or lean_broken or gen_dis):
+    if not reported and (dis_all or lean_broken or gen_dis or static_broken):
         path = core.replay_path(pid, '%s-%d-unproved' % (tier, seed))
         what = {}
         if gen_dis:
             what['translation'] = {'relation': 'translated kernel (Gen/*.lean from the working tree) = real kernel on the same inputs',
                                    'diverging': gen_dis[:5], 'translator_problems': core.TRANSLATION['problems']}
+        if static_broken:
+            what['static'] = static_broken
         if lean_broken:
             what['lean'] = {'build_ok': ok, 'build_log_tail': log[-1500:] if not ok else '',
                             'forbidden_tokens': forb,
@@ -285,7 +291,7 @@ def run_check(pid, tier):
         core.write_json(path, {'property': pid, 'kind': 'no-longer-shown-to-hold', 'seed': seed, 'tier': tier,
                                'no_longer_checks': what, 'search_evaluations': searched})
         out_lines.append('VIOLATION property=%s replay=%s no-failing-input-found' % (pid, path))
-        violations = max(1, len(dis_all) + len(gen_dis))
+        violations = max(1, len(dis_all) + len(gen_dis) + len(static_broken))
 
     wall = time.time() - t_start
     trusted = ['Lean 4.33.0 kernel' + (' (+ leanchecker re-check)' if leanchecker else ''),
@@ -317,6 +323,7 @@ def run_check(pid, tier):
                         'modules_built': {m: v[0] for m, v in built.items()}},
         'translator_validation': gen_summary,
         'translator_disagreements': len(gen_dis),
+        'static_checks': static,
         'budget_boost': boost,
         'disagreements': len(dis_all),
         'not_run_after_repeated_crashes': stats.get('not_run', 0),
